@@ -1,0 +1,43 @@
+//go:build verif
+
+package influxql
+
+// C12: what the expansion relies on to be deterministic and typed.
+//
+// Type precedence: d.LessThan(other) says that `other` takes precedence over d
+// when two sources disagree on a column's type. For the ten data types it is
+// exactly "rank(d) < rank(other)", with one documented exception: Unknown is
+// below everything, including itself (LessThan(Unknown, Unknown) is true, which
+// only means an unknown type is always replaced).
+//@ func (DataType).LessThan
+//@   props C12 C13
+//@   safety C13
+//@   modifies fresh
+//@   frameprops C14 C17
+//@   ensures [C12] @rank (0 <= d && d <= 9 && 0 <= other && other <= 9) ==> result == (d == Unknown || spec_typeRank(d) < spec_typeRank(other))
+//@ lemma typeOrderIrreflexive [C12] forall d DataType :: (1 <= d && d <= 9) ==> !(spec_typeRank(d) < spec_typeRank(d))
+//@ lemma typeOrderTotal [C12] forall a DataType, b DataType :: (0 <= a && a <= 9 && 0 <= b && b <= 9 && a != b) ==> (spec_typeRank(a) < spec_typeRank(b) || spec_typeRank(b) < spec_typeRank(a))
+//@ lemma typeOrderTransitive [C12] forall a DataType, b DataType, c DataType :: (spec_typeRank(a) < spec_typeRank(b) && spec_typeRank(b) < spec_typeRank(c)) ==> spec_typeRank(a) < spec_typeRank(c)
+//@ lemma typeOrderPrecedence [C12] forall d DataType :: (0 <= d && d <= 9) ==> (spec_typeRank(Float) >= spec_typeRank(d) && (d != Float ==> spec_typeRank(Float) > spec_typeRank(d)) && spec_typeRank(Unknown) <= spec_typeRank(d))
+
+// Ordering of expanded columns: by name, then by type (the sort.Interface of VarRefs).
+//@ func (VarRefs).Less
+//@   props C12 C13
+//@   safety C13
+//@   modifies fresh
+//@   frameprops C14 C17
+//@   requires 0 <= i && i < len(a) && 0 <= j && j < len(a)
+//@   ensures [C12] @lexicographic result == (a[i].Val < a[j].Val || (a[i].Val == a[j].Val && a[i].Type < a[j].Type))
+//@ func (VarRefs).Swap
+//@   props C12 C13
+//@   safety C13
+//@   modifies Elem#VarRef[]
+//@   frameprops C14 C17
+//@   requires 0 <= i && i < len(a) && 0 <= j && j < len(a)
+//@   ensures [C12] @swap a[i].Val == old(a[j].Val) && a[i].Type == old(a[j].Type) && a[j].Val == old(a[i].Val) && a[j].Type == old(a[i].Type)
+//@ func (VarRefs).Len
+//@   props C12 C13
+//@   safety C13
+//@   modifies fresh
+//@   frameprops C14 C17
+//@   ensures [C12] result == len(a)
